@@ -156,6 +156,17 @@ def parse_output(text):
 
 # ------------------------------------------------------------------ generator
 
+def always_exits(s):
+    """does control never reach the statement after s? (the compiler rejects such code as unreachable)"""
+    k = s[0]
+    if k in ("break", "continue", "return"): return True
+    if k == "if": return bool(s[3]) and block_exits(s[2]) and block_exits(s[3])
+    if k == "block": return block_exits(s[1])
+    return False
+
+def block_exits(b):
+    return any(always_exits(s) for s in b)
+
 class Gen:
     """Type-directed generator of well-typed, terminating, defined (no division by zero) programs."""
     def __init__(self, rng, max_stmts=40, max_depth=4, itys=None, allow_subword_arith=True):
@@ -168,6 +179,7 @@ class Gen:
         self.fns = []      # signatures of already generated functions: (params types, ret, recursive?)
         self.budget = 0
         self.features = {}
+        self.gate_self_operand = True     # open finding F-QBE-SELF-OPERAND: `x - x` on a variable inside a loop is miscompiled by QBE
 
     def feat(self, k):
         self.features[k] = self.features.get(k, 0) + 1
@@ -223,9 +235,15 @@ class Gen:
                 dv = -r.choice([2, 3, 5, 7])
             return ("bin", op, a, ("lit", t, dv))
         # at least one operand is not a literal (literal-only expressions are folded as untyped constants)
-        if r.random() < 0.5:
-            return ("bin", op, self.int_expr(t, env, d - 1, nonlit=True), self.int_expr(t, env, d - 1))
-        return ("bin", op, self.int_expr(t, env, d - 1), self.int_expr(t, env, d - 1, nonlit=True))
+        for _ in range(8):
+            if r.random() < 0.5:
+                a, b = self.int_expr(t, env, d - 1, nonlit=True), self.int_expr(t, env, d - 1)
+            else:
+                a, b = self.int_expr(t, env, d - 1), self.int_expr(t, env, d - 1, nonlit=True)
+            if a != b or not self.gate_self_operand: break
+        if a == b and self.gate_self_operand:
+            b = ("bin", "+", b, ("lit", t, 1))
+        return ("bin", op, a, b)
 
     def bool_expr(self, env, d, nonlit=False):
         r = self.rng
@@ -283,7 +301,7 @@ class Gen:
             if self.budget <= 0: break
             s = self.stmt(env, d, inloop, ret, protected)
             out.append(s)
-            if s[0] in ("break", "continue", "return"):
+            if always_exits(s):
                 break
         return out
 
@@ -326,7 +344,10 @@ class Gen:
             op = r.choice(["+", "-", "*", "/", "%"])
             if op in "/%":
                 return ("cassign", x, op, ("lit", t, r.choice([1, 2, 3, 7])))
-            return ("cassign", x, op, self.int_expr(t, env, r.randint(0, 2)))
+            e = self.int_expr(t, env, r.randint(0, 2))
+            if e == ("var", x) and self.gate_self_operand:
+                e = ("bin", "+", e, ("lit", t, 1))
+            return ("cassign", x, op, e)
         if c == "inc":
             ints = [(x, t) for x, t in assignable if t != "bool"]
             if not ints: return ("print", [self.expr("bool", env, 1, nonlit=True)])
@@ -387,6 +408,10 @@ class Gen:
         body += self.block(env, min(2, self.max_depth), False, ret, r.randint(1, 5), {params[0][0]} if rec else set())
         if body and body[-1][0] == "return":
             body.pop()
+        if block_exits(body):
+            # every path already returns: anything appended would be rejected as unreachable code
+            self.fns.append(([t for _, t in params], ret, rec))
+            return dict(params=params, ret=ret, body=body)
         env2 = env + [{}]
         # the block's own scope is gone: only params are visible for the final return
         if rec:
